@@ -16,19 +16,24 @@ MANIFEST = {
                  "differential correspondence of the model with the real nlohmann-based code",
     "text": "Theorem: for every OrangeInput satisfying the explicit decidable predicate Valid, "
             "from_json(to_json(x)) = x (in memory and through dump()/parse() text), for any "
-            "number/size of universes, volumes, surfaces, daughters. Each input class for which "
-            "the round trip is false in the real code (obz never written, involute surfaces "
-            "cannot be read, +-DBL_MAX bbox -> +-inf, zero Translation in a rect array -> "
-            "NoTransformation, labels with '@', null unit bbox -> infinite, empty logic) has a "
-            "proved negation on a concrete witness, replayed on the real code. The model is tied "
-            "to the code by exact comparison of encode / decode / round trip on random structured "
-            "inputs (all surface types, transforms, rect arrays, labels, tolerances, legacy keys, "
-            "malformed JSON) and every bundled .org.json.",
+            "number/size of universes, volumes, surfaces, daughters; for construction-API inputs "
+            "(obz set) the result is x with every obz reset. Every conjunct of Valid has a proved "
+            "negation witness replayed on the real code. Losses that construction-API programs "
+            "(harness op `proto`: UnitProto/InputBuilder scenarios) or bundled files actually "
+            "produce are violations (involute-unreadable, obz-dropped, label-at-sign, "
+            "null-bbox-canonicalised); the others (+-DBL_MAX bbox, zero Translation in a rect "
+            "array, null unit bbox, rewritten background volume, empty logic, non-finite doubles) "
+            "are outside the statement and only counted. The model is tied to the code by exact "
+            "comparison of encode / decode / round trip on random structured inputs (all surface "
+            "types, transforms, rect arrays, labels, tolerances, legacy keys, malformed JSON), "
+            "every bundled .org.json and the construction-API scenarios; tracking (128 rays) is "
+            "compared on OrangeParams built before/after the round trip.",
     "design_ref": "DESIGN.md §6 C19",
     "note": "Doubles are opaque bit patterns; nlohmann's text<->double conversion is trusted "
             "(finite doubles survive dump/parse exactly; checked on every sampled value). "
             "size_type = std::size_t (host build). Navigation identity is checked on the real "
-            "code (OrangeParams from both inputs, 32 rays) for the bundled files only.",
+            "code (OrangeParams from both inputs, 128 rays) for the bundled files and the "
+            "construction-API scenarios; random generated inputs are not valid geometries.",
 }
 DATA = os.path.join(vlib.REPO, "test", "orange", "data")
 W = (1 << 64) - 1
@@ -798,7 +803,9 @@ def run(ctx):
         "(CELER_EXPECT(value) in to_json) are compiled out in this build and are not assumed "
         "except where they coincide with Valid",
         "navigation identity is checked on the real code only (nav op) and only for inputs that "
-        "OrangeParams accepts (bundled files)",
+        "OrangeParams accepts (bundled files, construction-API scenarios built in the harness)",
+        "loss classes that neither a construction-API program nor a bundled file produces are "
+        "outside the statement (conjuncts of Valid), counted under op_mix outside-statement:*",
     ]
     exe, log, _ = vlib.build_harness("orangeio", HARNESS["orangeio"])
     if exe is None:
